@@ -85,7 +85,7 @@ class _MLoadAnyBytes:
 #  C02: DiameterAVP.load is the inverse of the RFC 6733 encoder on well-formed streams
 # =========================================================================================
 from pyvc.seqs import Field, fold                                     # noqa: E402
-from pyvc.spec import ghost_get, ghost_set, seq_uncons, seq_snoc, seq_empty, use_lemma, unbe, proved  # noqa: E402
+from pyvc.spec import ghost_get, ghost_set, seq_uncons, seq_snoc, seq_empty, use_lemma, unbe, proved, raised_in  # noqa: E402
 from pyvc.api import lemma                                            # noqa: E402
 from contracts.common import enc_avp, enc_of, avp_len, MAX24          # noqa: E402
 
@@ -190,8 +190,156 @@ class _LoadInverse:
         return use_lemma(catw_len, ghost_get("todo")) and len(result) == len(_vs)
 
     def exceptional(exc):
-        # data outside a dictionary class's domain is rejected by that class (C10); nothing else
-        return lib_error(exc)
+        # data outside a dictionary class's domain is rejected by THAT CLASS's constructor (C10);
+        # the parser itself never rejects a well-formed stream
+        return lib_error(exc) and raised_in(exc, "__init__")
 
     def control_drops_one(result, _vs):
         return len(result) + 1 == len(_vs)
+
+
+# =========================================================================================
+#  C02: DiameterMessage.load is the inverse of the RFC 6733 MESSAGE encoder on well-formed streams
+#       ("one or more concatenated messages ... exactly one message object per encoded message, in
+#       order ... re-serialising each decoded message reproduces its original bytes")
+# =========================================================================================
+_LoadInverse.at_calls = True          # applied at a call site ONLY with caller-supplied ghost witnesses
+_LoadInverse.accepts = staticmethod(lambda ctx, ns: False)
+_LoadInverse.returns = T.Seq(AVP_ELEM)
+_LoadInverse.raises = _LoadAnyBytes.raises
+if _LoadInverse not in __import__("pyvc.api", fromlist=["REGISTRY"]).REGISTRY:      # pragma: no cover
+    raise RuntimeError("registry")
+
+
+class WireMsg(object):
+    """ghost value: one message as a conformant peer put it on the wire (header fields + its AVPs)"""
+    __slots__ = ("_version", "_flags", "_command_code", "_application_id", "_hop_by_hop", "_end_to_end", "_avps")
+
+
+def wire_msg_valid(w):
+    """Message Length (20 + the encoded AVPs) fits its 24-bit field"""
+    return 20 + len(catw(w._avps)) < MAX24
+
+
+WMSG = ElemKind("wmsg", [("m", WireMsg, {
+    "_version": Field(("bytesn", 1)), "_flags": Field(("bytesn", 1)), "_command_code": Field(("bytesn", 3)),
+    "_application_id": Field(("bytesn", 4)), "_hop_by_hop": Field(("bytesn", 4)),
+    "_end_to_end": Field(("bytesn", 4)), "_avps": Field(("seq", WIRE))})], valid=wire_msg_valid)
+
+
+def hdr_w(w):
+    """RFC 6733 section 3 header of wire message w; Message Length = 20 + size of its encoded AVPs"""
+    from contracts.common import enc_hdr
+    return enc_hdr(w._version, be(20 + len(catw(w._avps)), 3), w._flags, w._command_code, w._application_id,
+                   w._hop_by_hop, w._end_to_end)
+
+
+def enc_wm(w):
+    return hdr_w(w) + catw(w._avps)
+
+
+def spec_dump(m):
+    """reference serialisation of a decoded message OBJECT: its header fields as stored, then the
+    reference encodings of its AVPs in list order"""
+    from contracts.common import enc_hdr
+    h = m._header
+    return enc_hdr(h._version, h._length, h._flags, h._command_code, h._application_id, h._hop_by_hop,
+                   h._end_to_end) + cat(m._avps)
+
+
+catm = fold("catm", enc_wm, "bytes")          # the wire: concatenated encodings of the peer's messages
+dumps = fold("dumps", spec_dump, "bytes")     # concatenated reference serialisations of message objects
+
+
+@lemma("catm_len", prop="C02", over=WMSG)
+def catm_len(s):
+    """every encoded message occupies at least its 20 header bytes"""
+    return len(catm(s)) >= 20 * len(s)
+
+
+def m02_entry(_ws):
+    return ghost_set("done", seq_empty(_ws)) and ghost_set("todo", _ws)
+
+
+def minv_wire_split(stream, done, todo, _ws):
+    return stream == catm(done) + catm(todo) and _ws == done + todo
+
+
+def minv_index(index, done):
+    return index == len(catm(done))
+
+
+def minv_redump(msgs, done):
+    return dumps(msgs) == catm(done)
+
+
+def minv_count(msgs, done):
+    return len(msgs) == len(done)
+
+
+def m02_hint(stream, index, todo, done):
+    pair = seq_uncons(todo)
+    w = pair[0]
+    ghost_set("cur", w)
+    ghost_set("todo", pair[1])
+    body = catw(w._avps)
+    n = 20 + len(body)
+    ok = len(catm(todo)) >= 0            # re-mention catm(todo): it unfolds to enc_wm(w) ++ catm(rest)
+    ok = ok and proved(stream == catm(done) + enc_wm(w) + catm(pair[1]), "wire-at-index")
+    ok = ok and proved(len(enc_wm(w)) == n, "message-size")
+    ok = ok and proved(stream[index:index + 20] == hdr_w(w), "header-slice")
+    ok = ok and proved(stream[index + 1:index + 4] == be(n, 3), "length-slice")
+    ok = ok and proved(stream[index + 20:index + n] == body, "avp-slice")
+    return ok
+
+
+def m02_tail(msg):
+    w = ghost_get("cur")
+    h = msg._header
+    # THE per-message statement, proved for the k-th iteration for arbitrary k: the message object
+    # appended by this iteration carries the header fields of the k-th wire message and re-serialises
+    # to exactly that message's bytes (so with `len(msgs) == len(done)` and append-only `msgs`, result[k]
+    # corresponds to the k-th encoded message)
+    ok = proved(h._version == w._version and h._flags == w._flags and h._command_code == w._command_code
+                and h._application_id == w._application_id and h._hop_by_hop == w._hop_by_hop
+                and h._end_to_end == w._end_to_end and unbe(h._length) == 20 + len(catw(w._avps)),
+                "kth-message-carries-the-kth-wire-header")
+    ok = ok and proved(spec_dump(msg) == enc_wm(w), "kth-message-reserialises-to-its-wire-bytes")
+    return ok and ghost_set("done", seq_snoc(ghost_get("done"), w))
+
+
+def avps_of_current_wire_message():
+    return {"_vs": ghost_get("cur")._avps}
+
+
+@contract("bromelia.base.DiameterMessage.load", prop="C02", name="inverse")
+class _MLoadInverse:
+    """for every sequence of messages a conformant peer may send (any header fields and command flags,
+    any number of AVPs each, any number of messages), decoding their concatenated RFC 6733 encodings
+    yields one message object per encoded message, in order, each carrying that message's header
+    fields and re-serialising to exactly its bytes"""
+    args = {"stream": T.Bytes(), "_ws": T.Seq(WMSG)}
+    loops = {0: Loop(vars=_MLOAD_VARS, ghost={"done": T.Seq(WMSG), "todo": T.Seq(WMSG)},
+                     inv=[minv_wire_split, minv_index, minv_redump, minv_count],
+                     hint=m02_hint, tail=m02_tail, entry=m02_entry)}
+    call_ghosts = {"DiameterAVP.load": ("inverse", avps_of_current_wire_message)}
+
+    def requires(stream, _ws):
+        return stream == catm(_ws)
+
+    def ensures_reserialises_identically(stream, result):
+        return dumps(result) == stream
+
+    def ensures_one_object_per_message(result, _ws):
+        return use_lemma(catm_len, ghost_get("todo")) and len(result) == len(_ws)
+
+    def exceptional(exc):
+        # AVP data outside a dictionary class's domain is rejected by that class inside the AVP
+        # parser (C10); the splitter itself never rejects a well-formed stream
+        return lib_error(exc) and raised_in(exc, "DiameterAVP.load")
+
+    def control_drops_one(result, _ws):
+        return len(result) + 1 == len(_ws)
+
+    def control_empty_result(result):
+        return len(result) == 0
